@@ -69,11 +69,16 @@ func randCode(rng *rand.Rand, n int) []byte {
 }
 
 func randCMapNameTok(rng *rand.Rand) string {
-	const al = "ABCDEFGHIJKLMNOPQRSTUVWXYZabcdefghijklmnopqrstuvwxyz0123456789-"
+	// `#` is an ordinary name character in PostScript (PDF gives `#2d` a
+	// meaning, PostScript does not), and so are the other regular characters here
+	const al = "ABCDEFGHIJKLMNOPQRSTUVWXYZabcdefghijklmnopqrstuvwxyz0123456789-#2d0A_.+*!$&"
 	n := 1 + rng.IntN(12)
 	b := make([]byte, n)
 	for i := range b {
 		b[i] = al[rng.IntN(len(al))]
+	}
+	if rng.IntN(6) == 0 {
+		b = append(b, []string{"#2d", "#20H", "#41#42", "#", "#2", "#zz", "#00"}[rng.IntN(7)]...)
 	}
 	if b[0] >= '0' && b[0] <= '9' || b[0] == '-' {
 		b[0] = 'N'
@@ -228,6 +233,10 @@ func renderDst(d MDst, rng *rand.Rand) string {
 		return "true"
 	case "dict":
 		return "<< >>"
+	case "proc":
+		return "{ <0041> <0042> }"
+	case "emptyproc":
+		return "{ }"
 	case "mark":
 		return "mark"
 	}
